@@ -192,6 +192,8 @@ def prepare_evo_aspirate_dispense_parameters(
         if isinstance(tip, int) and not isinstance(tip, Tip):
             # User-specified integers from 1-8 need to be converted to Tecan logic
             tip = int_to_tip(tip)
+        if tip == Tip.Any:
+            raise ValueError("Invalid tips: Tip.Any cannot be used in EVO commands. Select specific tips instead.")
         tecan_tips.append(tip)
 
     # EVOware pairs the selected tips, in ascending order, with the selected wells, in ascending order.
@@ -462,6 +464,8 @@ def prepare_evo_wash_parameters(
         if isinstance(tip, int) and not isinstance(tip, Tip):
             # User-specified integers from 1-8 need to be converted to Tecan logic
             tip = int_to_tip(tip)
+        if tip == Tip.Any:
+            raise ValueError("Invalid tips: Tip.Any cannot be used in EVO commands. Select specific tips instead.")
         tecan_tips.append(tip)
 
     if waste_location is None:
